@@ -1,6 +1,8 @@
 package main
 
 import (
+	"runtime/debug"
+	"runtime/pprof"
 	"encoding/json"
 	"flag"
 	"fmt"
@@ -116,6 +118,7 @@ func cmdCheck(args []string) {
 	keep := fs.Bool("keep", false, "keep all query files")
 	verbose := fs.Bool("v", false, "verbose")
 	timeoutF := fs.Int("timeout", 0, "per-obligation timeout (s)")
+	cpuprof := fs.String("cpuprofile", "", "write a CPU profile")
 	noEv := fs.Bool("noevidence", false, "do not write evidence or replay files (selftest against scratch copies)")
 	fs.Parse(args)
 	if fs.NArg() < 1 {
@@ -123,6 +126,11 @@ func cmdCheck(args []string) {
 	}
 	prop := fs.Arg(0)
 	t0 := time.Now()
+	if *cpuprof != "" {
+		f, _ := os.Create(*cpuprof)
+		pprof.StartCPUProfile(f)
+		defer pprof.StopCPUProfile()
+	}
 	if s := os.Getenv("VERIF_SEED"); s != "" && *seedF == 0 {
 		if n, err := strconv.Atoi(s); err == nil {
 			*seedF = n
@@ -148,6 +156,12 @@ func cmdCheck(args []string) {
 		rep.fatalBuild(err)
 		return
 	}
+	if *verbose {
+		fmt.Printf("LOAD %.1fs\n", time.Since(t0).Seconds())
+	}
+	// the loaded program (SSA of the module and its dependencies) is a large, long-lived heap: collect rarely
+	debug.SetGCPercent(1000)
+	debug.SetMemoryLimit(12 << 30)
 	axioms, err := e.axiomFacts()
 	if err != nil {
 		rep.fatalBuild(err)
@@ -161,7 +175,11 @@ func cmdCheck(args []string) {
 		if *only != "" && !strings.Contains(fn.String()+"/"+fc.Aspect, *only) {
 			return
 		}
+		tu := time.Now()
 		units = append(units, e.verifyFunc(fn, fc, pp.Safety))
+		if *verbose {
+			fmt.Printf("GEN %.1fs %s/%s\n", time.Since(tu).Seconds(), fn.Name(), fc.Aspect)
+		}
 	}
 	for _, u := range pp.Units {
 		fn := e.findFunc(u.Func)
@@ -240,6 +258,9 @@ func cmdCheck(args []string) {
 			}
 			os.RemoveAll(cfg2.WorkDir)
 		}
+	}
+	if *cpuprof != "" {
+		pprof.StopCPUProfile()
 	}
 	rep.finish(e, units, obls, *verbose)
 }
